@@ -164,6 +164,14 @@ def _enc(w, t, v):
     elif isinstance(t, pydsdl.CompositeType):
         if isinstance(t, pydsdl.DelimitedType):
             body = encode(t.inner_type, v)
+            if HEADER_SLACK is not None:
+                # what another version of the nested type would have sent: more bytes than this version knows (also beyond its
+                # extent), or fewer (the receiver zero-extends); both are valid representations
+                n = HEADER_SLACK.choice([0, 1, 1, 2, 5, 17, -1, -1, -2, -len(body)])
+                if n > 0:
+                    body = body + bytes(HEADER_SLACK.getrandbits(8) for _ in range(n))
+                elif n < 0:
+                    body = body[:max(0, len(body) + n)]
             w.put(len(body), t.delimiter_header_type.bit_length)
             for b in body:
                 w.put(b, 8)
@@ -192,11 +200,24 @@ def _enc_body(w, t, v):
     w.align(t.alignment_requirement)
 
 
+HEADER_SLACK = None
+
+
 def encode(t, v):
     """Top-level serialization (no delimiter header for the outermost object)."""
     w = BitWriter()
     _enc_body(w, inner(t), v)
     return w.bytes()
+
+
+def encode_other_version(r, t, v):
+    """A valid representation in which nested delimited objects arrive longer or shorter than this version's own encoding."""
+    global HEADER_SLACK
+    HEADER_SLACK = r
+    try:
+        return encode(t, v)
+    finally:
+        HEADER_SLACK = None
 
 
 # ------------------------------------------------------------------------------------------------ decode
